@@ -802,6 +802,10 @@ impl Gen {
         let v = self.int_val(ty, false);
         let op = if !matches!(ty, "u8" | "i8") && self.rng.chance(20) { "wput" } else { "put" };
         self.emit(format!("{op} {id} {ty} {ord} {v}"));
+        // often read straight back with the same type and byte order (round trip)
+        if self.rng.chance(35) {
+          self.emit(format!("get {id} {ty} {ord}"));
+        }
       }
       1 => {
         let ty = self.rng.pick(&INTS);
